@@ -505,6 +505,12 @@ example : decode? wKeepalive = none ∧ (dispatch ⟨3⟩ stReg 0x01010101 1234 
   decide
 
 set_option maxRecDepth 20000 in
+/-- the hypothesis of `reaches_implies_decodable` / `acts_as_wellformed` is satisfiable, by quirky and by strict datagrams -/
+example : reachesUseCase 0x01010101 wUnterminated = true ∧ reachesUseCase 0x01010101 wOddSkip = true ∧
+    reachesUseCase 0x01010101 wKeepalive = true ∧ reachesUseCase 0x01010101 (0x03 :: (xid ++ okBody)) = true := by
+  refine ⟨?_, ?_, ?_, ?_⟩ <;> decide
+
+set_option maxRecDepth 20000 in
 /-- non-vacuity of the first disjunct: the well-formed report is accepted by the decoder and changes the state -/
 example : (decode? (0x03 :: (xid ++ okBody))).map Msg.isHeartbeat = some true ∧
     (dispatch ⟨3⟩ {} 0x01010101 1234 (0x03 :: (xid ++ okBody)) 1000).1 ≠ {} :=
